@@ -11,6 +11,10 @@ ASSUMPTIONS = []
 
 
 def jobs(tier):
+    return [dict(j, second_solver=(10 if tier == "thorough" else 0)) for j in _jobs(tier)]
+
+
+def _jobs(tier):
     dmax = 6 if tier == "quick" else 12
     js = [dict(name="constructor", fn="constructor", args=[], collect_models=1),
           dict(name="step", fn="step", args=[], collect_models=3, expect=["n-th sequence == start + n mod 10", "update keeps the counter"]),
